@@ -76,8 +76,14 @@ CLOSURES = {'PY': ('PercusYevick', 'PY'), 'HNC': ('HyperNettedChain', 'HNC'),
             'MSA': ('MeanSphericalApproximation', 'MSA'), 'MS': ('MartynovSarkisov', 'MS')}
 
 
-def mk_clo(spec):
+def mk_clo(spec, variant=2):
+    """variant selects how the user wrote the constructor call: 0 -> the documented default where it applies (no argument, no
+    hard-core condition) | 1 -> positional flag | otherwise keyword"""
     name = CLOSURES[spec['t']][1 if spec.get('alias') else 0]
+    if not spec.get('hc') and variant % 3 == 0:
+        return getattr(C, name)()
+    if variant % 3 == 1:
+        return getattr(C, name)(bool(spec.get('hc')))
     return getattr(C, name)(apply_hard_core=bool(spec.get('hc')))
 
 
@@ -102,16 +108,42 @@ def mk_om(spec):
     raise KeyError(t)
 
 
+def fresh(x):
+    """an object equal to x but (where the language allows) not identical to it: labels that are computed at run time, read from
+    a file or typed twice are equal, not the same object.  (Single characters and small integers are cached by Python.)"""
+    if isinstance(x, str):
+        return ''.join(list(x))
+    if isinstance(x, int) and not isinstance(x, bool):
+        return int(str(x))
+    return x
+
+
+def style(sp):
+    """user-level writing style of a spec, derived deterministically from its content unless sp['style'] says otherwise:
+    'plain' | 'grouped' (equal values assigned through list keys, identical pair items through table[types, types], as the
+    tutorials do) | 'replace' (the System's tables are replaced by newly created tables before they are filled)"""
+    if sp.get('style'):
+        return sp['style']
+    h = spec_hash(sp) % 10
+    return 'grouped' if h < 3 else ('replace' if h < 5 else 'plain')
+
+
+def spec_hash(sp):
+    return int(round(sum(sp['rho'].values()) * 1e9 + sp['L'] + 1e6 * sp['kT']))
+
+
 def build(sp, omit=(), labels=None, originals=None, into=None):
     """real System from a spec; `omit` lists items to leave unspecified
     ('domain', 'rho:A', 'd:A', 'pot:A|B', 'clo:A|B', 'om:A|B'); `labels` maps the spec's type names to the labels used in the
     real System (any hashable: other strings, integers); `originals` (a list) collects the potential/closure/omega objects the
     user handed to the tables (the tables store copies); `into` = an existing System of the same types that is re-specified in
-    place (a parameter sweep on one System object, as every tutorial does)"""
+    place (a parameter sweep on one System object, as every tutorial does).
+    Every use of a label is a fresh equal object (see fresh()); the writing style (see style()) varies with the spec."""
     if labels is None:
         labels = sp.get('labels')
-    lab = (lambda t: t) if labels is None else (lambda t: labels[t])
+    lab = (lambda t: fresh(t)) if labels is None else (lambda t: fresh(labels[t]))
     types = [lab(t) for t in sp['types']]
+    st = style(sp)
     if into is not None:
         s = into
         s.kT = sp['kT']
@@ -121,21 +153,54 @@ def build(sp, omit=(), labels=None, originals=None, into=None):
         s.kT = sp['kT']
     else:
         s = pyPRISM.System(types, kT=sp['kT'])
+    if st == 'replace' and into is None:
+        # the documented public containers replaced wholesale by newly created ones, filled afterwards
+        s.density = pyPRISM.Density([lab(t) for t in sp['types']])
+        s.diameter = pyPRISM.Diameter([lab(t) for t in sp['types']])
+        s.potential = pyPRISM.PairTable([lab(t) for t in sp['types']], 'potential')
+        s.closure = pyPRISM.PairTable([lab(t) for t in sp['types']], 'closure')
+        s.omega = pyPRISM.PairTable([lab(t) for t in sp['types']], 'omega')
     if 'domain' not in omit:
         s.domain = make_domain(sp)
-    for t in sp['types']:
-        if 'rho:' + t not in omit:
-            s.density[lab(t)] = sp['rho'][t]
-        if 'd:' + t not in omit:
-            s.diameter[lab(t)] = sp['d'][t]
+    for name, table, vals in (('rho', s.density, sp['rho']), ('d', s.diameter, sp['d'])):
+        todo = [t for t in sp['types'] if '%s:%s' % (name, t) not in omit]
+        if st == 'grouped':
+            # types that share a value are assigned in one statement through a list (or tuple) key
+            seen = []
+            for t in todo:
+                if t in seen:
+                    continue
+                grp = [u for u in todo if vals[u] == vals[t]]
+                seen += grp
+                if len(grp) > 1:
+                    key = [lab(u) for u in grp]
+                    table[key if len(seen) % 2 else tuple(key)] = vals[t]
+                else:
+                    table[lab(t)] = vals[t]
+        else:
+            for t in todo:
+                table[lab(t)] = vals[t]
     for name, table, mk in (('pot', s.potential, mk_pot), ('clo', s.closure, mk_clo), ('om', s.omega, mk_om)):
-        for key, spec in sp[name].items():
-            if '%s:%s' % (name, key) not in omit:
-                a, b = key.split('|')
-                obj = mk(spec)
+        items = [(key, spec) for key, spec in sp[name].items() if '%s:%s' % (name, key) not in omit]
+        done = set()
+        if st == 'grouped' and len(items) == len(sp[name]) and len(items) > 1:
+            # sys.closure[sys.types, sys.types] = PY() followed by the exceptions, as the tutorials write it
+            first = items[0][1]
+            same = [key for key, spec in items if spec == first]
+            if len(same) > 1:
+                obj = mk(first) if name != 'clo' else mk_clo(first, spec_hash(sp) // 10)
                 if originals is not None:
                     originals.append(obj)
-                table[lab(a), lab(b)] = obj
+                table[[lab(t) for t in sp['types']], [lab(t) for t in sp['types']]] = obj
+                done = set(same)
+        for key, spec in items:
+            if key in done:
+                continue
+            a, b = key.split('|')
+            obj = mk(spec) if name != 'clo' else mk_clo(spec, spec_hash(sp) // 10 + len(done) + sp['types'].index(a) + 2 * sp['types'].index(b))
+            if originals is not None:
+                originals.append(obj)
+            table[lab(a), lab(b)] = obj
     return s
 
 
